@@ -474,7 +474,7 @@ func runC03(c *Check) error {
 			if !s.okFor(ver) {
 				continue
 			}
-			if !thorough && ver == "7.2" && (s.Class == "pair" || s.Class == "triple" || s.Class == "double") {
+			if !thorough && ver == "7.2" && (s.Class == "pair" || s.Class == "triple" || s.Class == "double" || s.Class == "dirty") {
 				continue
 			}
 			add("H_C03_Accept", "baseline acceptance", ver, []string{tC(s.Src)}, map[string]interface{}{"origin": s.Origin}, "accepted")
